@@ -139,6 +139,33 @@ def check(run):
                 oracle_fail.append((cfg, l, "different bytes are not equal", o))
         elif (eq, lt, gt) != want[r]:
             oracle_fail.append((cfg, l, f"by value: {r}", o))
+    # the same relation in a build without doubles (ARDUINOJSON_USE_DOUBLE=0: floats are the only floating-point storage):
+    # integers against floats still compare by numeric value, as doubles
+    def has_double(v):
+        if isinstance(v, list): return any(has_double(x) for x in v)
+        if isinstance(v, tuple) and v[0] == "o": return any(has_double(x) for _, x in v[1])
+        return isinstance(v, tuple) and v[0] == "D"
+    cfg0 = "10000"
+    impl0 = vlib.need_harness("num_h", cfg0)
+    vals0 = [v for v in vals if not has_double(v)]
+    pairs0 = [(a, b) for a in vals0 for b in vals0 if (isinstance(a, tuple) and a[0] in "iF") or (isinstance(b, tuple) and b[0] in "iF")]
+    if len(pairs0) > (20000 if thorough else 5000):
+        rnd.shuffle(pairs0)
+        pairs0 = pairs0[: (20000 if thorough else 5000)]
+    lines0 = [f"CMP {d(a)} {d(b)}" for a, b in pairs0]
+    mism, mo0, io0 = vlib.correspond(run, model, impl0, lines0, cfg0, "operators without doubles")
+    all_mism += [(cfg0, m) for m in mism]
+    for (a, b), l, o in zip(pairs0, lines0, io0):
+        if o == "<crash>":
+            continue
+        if "DIFFERS" in o:
+            oracle_fail.append((cfg0, l, "variant-vs-scalar operators agree with variant-vs-variant (no doubles)", o)); continue
+        eq, ne, lt, le, gt, ge = [c == "1" for c in o[:6]]
+        r = by_value(a, b)
+        if r in ("eq", "lt", "gt", "ne"):
+            want = {"eq": (True, False, False), "lt": (False, True, False), "gt": (False, False, True), "ne": (False, False, False)}[r]
+            if (eq, lt, gt) != want:
+                oracle_fail.append((cfg0, l, f"by value (ARDUINOJSON_USE_DOUBLE=0): {r}", o))
     # objects with a repeated key (only reachable through deserializeMsgPack)
     dups = [("o", [(b"a", ("i", 1)), (b"a", ("i", 1))]), ("o", [(b"a", ("i", 1)), (b"b", ("i", 2))]), ("o", [(b"a", ("i", 1)), (b"a", ("i", 2))]),
             ("o", [(b"a", ("i", 2)), (b"a", ("i", 1))]), ("o", [(b"a", ("i", 1))]), ("o", [(b"b", ("i", 2)), (b"a", ("i", 1))]),
